@@ -136,13 +136,8 @@ def _np_abs(it, args, kw):
     return _map(lambda it_, x: M.b_abs(it_, [x], {}))(it, [args[0]], {})
 
 
-def _nan_free(a, n):
-    return NP.QA(n, lambda j: z3.Not(xreal.is_nan(a.at(j)))) if a.dtype == 'float' else z3.BoolVal(True)
-
-
 def _arg_extreme(which):
-    """np.argmin / np.argmax of a rank-1 array: first index of an attained extreme (NaN-free input; with NaNs only the
-    range of the result is stated)."""
+    """np.argmin / np.argmax of a rank-1 array: first index of an attained extreme (NaN ordered before every number, as numpy does)."""
     def fn(it, args, kw):
         a = args[0]
         if not isinstance(a, NDArray):
@@ -159,11 +154,11 @@ def _arg_extreme(which):
                 f = NP.fresh_fn(run, 'arg' + which, 1, z3.IntSort())
                 NP.fact(run, NP.QA(n, lambda i: z3.And(f(i) >= 0, f(i) < NP.zi(d))))
                 if a.dtype == 'float':
-                    bt = (lambda x, y: xreal.lt(x, y)) if which == 'min' else (lambda x, y: xreal.lt(y, x))
-                    nanfree = lambda i: NP.QA(d, lambda k: z3.Not(xreal.is_nan(a.at(i, k))))
-                    NP.fact(run, NP.QA(n, lambda i: z3.Implies(nanfree(i), z3.And(
+                    st = (lambda x, y: xreal.lt(x, y)) if which == 'min' else (lambda x, y: xreal.lt(y, x))
+                    bt = lambda x, y: z3.Or(z3.And(xreal.is_nan(x), z3.Not(xreal.is_nan(y))), st(x, y))
+                    NP.fact(run, NP.QA(n, lambda i: z3.And(
                         NP.QA(d, lambda k: z3.Not(bt(a.at(i, k), a.at(i, f(i))))),
-                        NP.QA(f(i), lambda k: bt(a.at(i, f(i)), a.at(i, k)))))))
+                        NP.QA(f(i), lambda k: bt(a.at(i, f(i)), a.at(i, k))))))
                 return NDArray((n,), 'int', lambda i: f(i))
             outs = [fn(it, [a.row(i)], {}) for i in range(rows)]
             return NP.from_nested(it, outs, 'int')
@@ -178,14 +173,31 @@ def _arg_extreme(which):
         if a.dtype == 'bool':
             raise Unsupported('np.arg%s of a boolean array' % which)
         if a.dtype == 'float':
-            better = (lambda x, y: xreal.lt(x, y)) if which == 'min' else (lambda x, y: xreal.lt(y, x))
+            # numpy orders NaN before everything in argmin/argmax (the first NaN is returned)
+            strict = (lambda x, y: xreal.lt(x, y)) if which == 'min' else (lambda x, y: xreal.lt(y, x))
+            better = lambda x, y: z3.Or(z3.And(xreal.is_nan(x), z3.Not(xreal.is_nan(y))), strict(x, y))
         else:
             better = (lambda x, y: x < y) if which == 'min' else (lambda x, y: y < x)
-        best = a.at(idx)
-        nf = _nan_free(a, n)
-        NP.fact(run, z3.Implies(nf, NP.QA(n, lambda j: z3.Not(better(a.at(j), best)))))
-        NP.fact(run, z3.Implies(nf, NP.QA(idx, lambda j: better(best, a.at(j)))))
-        run.__dict__.setdefault('arg_log', []).append((which, a, idx))
+        # the array is named by a fresh function g (defining axiom with the trigger g(j)): the extremal facts are then
+        # instantiated by E-matching on g, whatever arithmetic the element expression contains
+        nc = NP.conc(n)
+        if nc is not None:
+            g = lambda j: a.at(j)
+        else:
+            gf = NP.fresh_fn(run, 'arr', 1, NP.SORTS[a.dtype])
+            g = lambda j: gf(NP.zi(j))
+            j = z3.Int('q!%d' % next(_uid))
+            run.axiom(z3.ForAll([j], z3.Implies(z3.And(j >= 0, j < NP.zi(n)), gf(j) == z3.simplify(a.at(j))), patterns=[gf(j)]))
+            run.assume(gf(idx) == z3.simplify(a.at(idx)))
+        best = g(idx)
+        if nc is not None:
+            NP.fact(run, NP.QA(n, lambda j: z3.simplify(z3.Not(better(g(j), best)))))
+            NP.fact(run, NP.QA(idx, lambda j: z3.simplify(better(best, g(j)))))
+        else:
+            j = z3.Int('q!%d' % next(_uid))
+            run.axiom(z3.ForAll([j], z3.Implies(z3.And(j >= 0, j < NP.zi(n)), z3.Not(better(gf(j), best))), patterns=[gf(j)]))
+            run.axiom(z3.ForAll([j], z3.Implies(z3.And(j >= 0, j < idx), better(best, gf(j))), patterns=[gf(j)]))
+        run.__dict__.setdefault('arg_log', []).append((which, a, idx, g))
         return idx
     return fn
 
@@ -650,3 +662,85 @@ def member_at(dom, v, w):
     if dom.ptype == 'CATEGORICAL' and (isinstance(v, str) or (z3.is_expr(v) and v.sort() == Str)):
         return z3.And(w >= 0, w < dom.fv.n, dom.fv.arr[w] == E.to_z3(v))
     return member(dom, v)
+
+
+# ------------------------------------------------------------------------------------------ ndarray indexing extras
+def _nd_subscript(it, base, idx):
+    if not isinstance(base, NDArray):
+        return M.MISSING
+    # a[rows] with an integer index array: gather of rows (numpy raises IndexError for an index outside [-n, n))
+    if isinstance(idx, NDArray) and idx.dtype == 'int' and idx.rank == 1 and base.rank == 2 and idx.perm is None:
+        n, d = base.shape
+        m = idx.shape[0]
+        ok = NP.QA(m, lambda i: z3.And(idx.at(i) >= -NP.zi(n), idx.at(i) < NP.zi(n)))
+        okb = NP.scalar_bool(it, ok)
+        if not it.truth(okb):
+            raise PyRaise(it.make_exc('IndexError', ['index out of bounds']))
+        if E._has_quantifier(ok):
+            it.run.axiom(ok)
+        f, g = base.fn, idx.fn
+        nn = NP.zi(n)
+        return NDArray((m, d), base.dtype, lambda i, k: f(z3.If(g(i) < 0, g(i) + nn, g(i)), k))
+    # a[:, None] / a[:, np.newaxis] on a vector
+    if isinstance(idx, tuple) and len(idx) == 2 and isinstance(idx[0], slice) and idx[0] == slice(None, None, None) and idx[1] is None \
+            and base.rank == 1:
+        f = base.fn
+        return NDArray((base.shape[0], 1), base.dtype, lambda i, k: f(i))
+    return M.MISSING
+
+
+NP._chain('subscript_hook', _nd_subscript)
+
+
+# ------------------------------------------------------------------------------------------ `x in array-list` without quantifiers in the path condition
+_prev_contains = M.contains
+
+
+def _range_pos(lst, x):
+    """(is a member, position) of a number x in list(range(lo, hi)) -- plain arithmetic"""
+    lo, hi = lst.range_of
+    if isinstance(x, bool) or (z3.is_expr(x) and x.sort() == z3.BoolSort()):
+        x = NP.zi(x)
+    if isinstance(x, int) or (z3.is_expr(x) and x.sort() == z3.IntSort()):
+        xi = NP.zi(x)
+        return z3.And(lo <= xi, xi < hi), xi - lo
+    if _is_floaty(x):
+        xx = xl(x)
+        xi = z3.ToInt(xreal.r(xx))
+        return z3.And(xreal.is_fin(xx), z3.IsInt(xreal.r(xx)), lo <= xi, xi < hi), xi - lo
+    return z3.BoolVal(False), z3.IntVal(0)
+
+
+def _contains(it, container, x):
+    if isinstance(container, SymList) and not isinstance(container, NP.EnumList) and M.try_iterate(it, container) is None:
+        if getattr(container, 'range_of', None) is not None:
+            return _range_pos(container, x)[0]
+        if not it.pure:
+            run = it.run
+            xt = xl(x) if _is_floaty(x) else E.to_z3(x)
+            if xt.sort() != container.elem_sort():
+                if container.elem_sort() == xreal.XReal and xt.sort() in (z3.IntSort(), z3.BoolSort()):
+                    xt = xl(xt)
+                else:
+                    return False
+            b = run.fresh('isin', z3.BoolSort())
+            w = run.fresh('isin_at', z3.IntSort())
+            run.assume(z3.Implies(b, z3.And(w >= 0, w < container.n, elem_eq(container.arr[w], xt))))
+            j = z3.Int('j!in%d' % next(_uid))
+            run.axiom(z3.ForAll([j], z3.Implies(z3.And(j >= 0, j < container.n, elem_eq(container.arr[j], xt)), b)))
+            return b
+    return _prev_contains(it, container, x)
+
+
+M.contains = _contains
+
+_symlist_index_general = symlist_index
+
+
+def symlist_index(it, lst, x):        # noqa: F811  (range lists: arithmetic instead of a search)
+    if getattr(lst, 'range_of', None) is not None:
+        mem, pos = _range_pos(lst, x)
+        if it.truth(mem):
+            return pos
+        raise PyRaise(it.make_exc('ValueError', ['x not in list']))
+    return _symlist_index_general(it, lst, x)
